@@ -414,7 +414,7 @@ func runC10(args []string) error {
 	sm.RefMismatches = []refMismatch{}
 	nMain, nReg, maxLen := 1500, 150, 12
 	if *tier == "thorough" {
-		nMain, nReg, maxLen = 20000, 2000, 12
+		nMain, nReg, maxLen = 40000, 4000, 12
 	}
 	type meta struct {
 		stream string
